@@ -734,8 +734,10 @@ Definition scan_key (fl : flavor) (gname key : str) : res (list path) :=
           match fl, parts with
           | FChannel, [n; c] =>
               if nonempty n && startswith [COLON] n && nonempty c && is_channel c then Ok [[n]; [n; c]] else Ok []
-          | FChannel, [c] => if is_channel c then Ok [[c]] else Ok []
-          | FNetwork, [c] => if is_channel c then Ok [[c]] else Ok []
+          | FChannel, [c] =>
+              if nonempty c && startswith [COLON] c then Ok [[c]]       (* the network value, without a channel *)
+              else if is_channel c then Ok [[c]] else Ok []
+          | FNetwork, [c] => if nonempty c && (startswith [COLON] c || is_channel c) then Ok [[c]] else Ok []
           | _, _ => Ok []
           end
       end
